@@ -20,7 +20,7 @@ ASSUMPTIONS = ["spglib returns operations of the structure (each returned operat
 CELLS = [("sc1", (2, 2, 1)), ("cscl", (1, 1, 1)), ("bcc_conv", (1, 1, 1)), ("fcc_conv", (1, 1, 1)), ("nacl_prim", (2, 1, 1)), ("si_prim", (1, 1, 1)),
          ("hcp", (1, 1, 1)), ("wurtzite", (1, 1, 1)), ("tet_bc", (1, 1, 2)), ("ortho_C", (1, 1, 1)), ("ortho_I", (1, 1, 1)), ("mono_P", (1, 1, 1)),
          ("mono_C", (1, 1, 1)), ("tri2_P1", (2, 1, 1)), ("tri2_Pm1", (1, 1, 1)), ("tri3_P1", (1, 1, 1)), ("rhombo2", (1, 1, 1)), ("hex1", (2, 2, 1)),
-         ("sheared", (1, 1, 1)), ("needle", (1, 1, 1)), ("rutile_like", (1, 1, 1))]
+         ("sheared", (1, 1, 1)), ("needle", (1, 1, 1)), ("rutile_like", (1, 1, 1)), ("cscl", (3, 1, 1)), ("tri2_P1", (3, 1, 1))]   # thirds in the translations
 CELLS_MORE = [("sc1", (2, 2, 2)), ("fcc_conv", (1, 1, 2)), ("si_prim", (2, 2, 1)), ("hcp", (2, 1, 1)), ("tri1", (3, 2, 1)), ("flat", (1, 1, 1)), ("skew_unreduced", (1, 1, 1)),
               ("wurtzite", (2, 1, 1)), ("ortho2", (2, 1, 1)), ("tet1", (2, 2, 1)), ("rhombo1", (2, 1, 1))]
 
@@ -67,8 +67,15 @@ def check(ctx):
             proper = np.array([i for i in range(len(rots)) if round(np.linalg.det(rots[i])) == 1])
             if 0 < len(proper) < len(rots):
                 subsets["proper"] = proper
+            # the operations as a caller would type them in: translations with six decimals (1/3 as 0.333333, error 3e-7 < symprec);
+            # the permutation of each operation must still be the one of the exact operation
+            if np.abs(np.round(trans, 6) - trans).max() > 1e-9:
+                subsets["all-6decimals"] = np.arange(len(rots))
             for sname, idx in subsets.items():
                 r_sub, t_sub = rots[idx], trans[idx]
+                t_exact = t_sub
+                if sname == "all-6decimals":
+                    t_sub = np.round(t_sub, 6)
                 at = atoms_of(sc)
                 try:
                     reps = SpgRepsO2(at, spacegroup_operations={"rotations": r_sub, "translations": t_sub} if sname != "all" or dname != "ideal" else None)
@@ -81,7 +88,7 @@ def check(ctx):
                     r_use, t_use = reps._get_symops(None)
                     r_use, t_use = np.array(r_use), np.array(t_use)
                 else:
-                    r_use, t_use = r_sub, t_sub
+                    r_use, t_use = r_sub, t_exact
                 perms = np.asarray(reps._permutations)
                 ctx.case({"cell": sc["name"], "description": dname, "ops": sname, "n_ops": int(len(r_use)), "N": int(N)}, nontrivial=len(r_use) >= 2)
                 ctx.count("desc:" + dname)
@@ -107,7 +114,7 @@ def check(ctx):
                     if len(coq_cases) < (60 if ctx.quick else 400) and k % 3 == 0:
                         coq_cases.append((D, P, nums, r_use[k], s, perms[k], rep, k))
                 # --- stable variant
-                st = compute_sg_permutations_stable(np.asarray(sc["positions"], float), r_use, t_use, np.asarray(sc["lattice"], float).T, 1e-5)
+                st = compute_sg_permutations_stable(np.asarray(sc["positions"], float), r_use, t_sub if sname == "all-6decimals" else t_use, np.asarray(sc["lattice"], float).T, 1e-5)
                 if not np.array_equal(st, perms):
                     ctx.fail("oracle", "C14/oracle/stable", f"{sc['name']}/{dname}/{sname}: compute_sg_permutations differs from compute_sg_permutations_stable", replay=rep, has_input=True)
                 # --- group structure of the returned permutations
